@@ -1,4 +1,5 @@
 import GambitV.Lemmas.Jaccard
+import GambitV.Lemmas.F32
 
 /-!
 # C02 — `c_jaccarddist` computes the Jaccard distance of the two sorted coordinate arrays
@@ -88,11 +89,69 @@ theorem castDtype_spec (kind : Char) (size w : Nat) :
               · intro e; exact e.2.2.symm
   · next h => simp only [reduceCtorEq, false_iff]; intro e; exact h ⟨e.1, e.2.1⟩
 
+/-! ### Part B: the binary32 layer -/
+
+/-- F1. `ratExp` is the floor of the binary logarithm of the ratio. -/
+theorem ratExp_spec {num den : ℕ} (hn : 0 < num) (hd : 0 < den) :
+    (den : ℚ) * 2 ^ (F32.ratExp num den) ≤ num ∧ (num : ℚ) < den * 2 ^ (F32.ratExp num den + 1) :=
+  F32.ratExp_spec hn hd
+
+theorem ratExp_unique {num den : ℕ} (hn : 0 < num) (hd : 0 < den) (e : ℤ)
+    (h1 : (den : ℚ) * 2 ^ e ≤ num) (h2 : (num : ℚ) < den * 2 ^ (e + 1)) :
+    F32.ratExp num den = e :=
+  F32.ratExp_unique hn hd e h1 h2
+
+/-- F2. The rounding function depends only on the ratio. -/
+theorem roundRat_scale {c : ℕ} (hc : 0 < c) (num den : ℕ) :
+    F32.roundRat (c * num) (c * den) = F32.roundRat num den :=
+  F32.roundRat_scale hc num den
+
+/-- F3. Integer-to-float conversion is exact below `2^24`. -/
+theorem ofNat_exact {n : ℕ} (h0 : 0 < n) (h : n < 2 ^ 24) :
+    ∃ m s : ℕ, F32.decode (F32.ofNat n) = some (m, -(s : ℤ)) ∧ m = n * 2 ^ s :=
+  F32.ofNat_exact h0 h
+
+/-- F4. Dividing two exactly converted integers rounds the exact quotient once. -/
+theorem div_ofNat {n u : ℕ} (h0 : 0 < n) (hu : 0 < u) (hn : n < 2 ^ 24) (hu' : u < 2 ^ 24) :
+    F32.div (F32.ofNat n) (F32.ofNat u) = F32.roundRat n u :=
+  F32.div_ofNat h0 hu hn hu'
+
+theorem div_ofNat_zero {u : ℕ} (hu : 0 < u) (hu' : u < 2 ^ 24) :
+    F32.div (F32.ofNat 0) (F32.ofNat u) = 0 :=
+  F32.div_ofNat_zero hu hu'
+
+/-- F5. For sorted inputs whose union has fewer than `2^24` elements, the value returned by
+`c_jaccarddist` is the correctly rounded (nearest, ties-to-even) binary32 value of the exact
+Jaccard distance `|A ∆ B| / |A ∪ B|`. -/
+theorem jaccard_correctly_rounded {a b : List Nat}
+    (ha : a.Pairwise (· < ·)) (hb : b.Pairwise (· < ·)) (hu : unionCount a b < 2 ^ 24) :
+    jaccardBits a b =
+      jaccardSpecBits (symmDiff a.toFinset b.toFinset).card (a.toFinset ∪ b.toFinset).card := by
+  rw [← symmDiff_card ha hb, ← unionCount_eq_card ha hb]
+  unfold jaccardSpecBits
+  by_cases h : unionCount a b = 0
+  · rw [if_pos h, jaccardBits_of_union_zero h]; rfl
+  · rw [if_neg h, jaccardBits_unfold h]
+    have hupos : 0 < unionCount a b := Nat.pos_of_ne_zero h
+    by_cases hn : 2 * unionCount a b - a.length - b.length = 0
+    · rw [hn, F32.div_ofNat_zero hupos hu, F32.roundRat_zero_left]
+    · have h1 := length_le_unionCount_left a b
+      have h2 := length_le_unionCount_right a b
+      have h3 := unionCount_le_add a b
+      exact F32.div_ofNat (Nat.pos_of_ne_zero hn) hupos (by omega) hu
+
 /-! ### Non-vacuity -/
 
 example : unionCount [1, 2, 3] [2, 3, 4] = 4 := by decide +kernel
 example : jaccardBits [1, 2, 3] [2, 3, 4] = 0x3F000000 := by decide +kernel
 example : jaccardIndexBits [1, 2, 3] [2, 3, 4] = 0x3F000000 := by decide +kernel
+example : jaccardSpecBits 2 4 = 0x3F000000 := by decide +kernel
+example : jaccardBits [1, 2] [1, 3, 4] = 0x3F400000 := by decide +kernel
+example : jaccardBits [1, 2, 5] [1, 2, 4] = 0x3F000000 := by decide +kernel
+-- 1/3 is not representable: the result is the nearest float 0x3EAAAAAB = 11184811 * 2^-25
+example : jaccardBits [1, 2] [1, 2, 3] = 0x3EAAAAAB := by decide +kernel
+example : jaccardSpecBits (symmDiff ([1, 2] : List Nat).toFinset [1, 2, 3].toFinset).card
+    (([1, 2] : List Nat).toFinset ∪ [1, 2, 3].toFinset).card = 0x3EAAAAAB := by decide +kernel
 example : castDtype 'u' 8 = some 8 ∧ castDtype 'f' 4 = none ∧ castDtype 'i' 1 = none := by decide
 
 end GambitV.C02
